@@ -40,9 +40,9 @@ pub fn vbincode_serialized_size<T: VSerde>(value: &T) -> (r: Result<u64, ()>)
 // ---- Take<R> + brotli::Decompressor<Take<R>>  (the reader of one compressed block)
 /// brotli::Decompressor::new(inner.take(limit), buffer_size): owns the inner reader, may consume at most `limit`
 /// bytes of it; allocates `buffer_size` bytes (C08 side condition: bounded by a constant)
-pub struct VDecompressor<R: VStream> { pub inner: R, pub start: Ghost<nat>, pub limit: Ghost<nat> }
+pub struct VDecompressor<R: VRead> { pub inner: R, pub start: Ghost<nat>, pub limit: Ghost<nat> }
 
-impl<R: VStream> VDecompressor<R> {
+impl<R: VRead> VDecompressor<R> {
     pub open spec fn wf(&self) -> bool {
         self.inner.wf() && self.start@ <= self.inner.pos() <= self.start@ + self.limit@
     }
